@@ -148,3 +148,26 @@ void h_member_offset_pair(void)
   int64_t o4, o5;
   w_member_offset_pair(&o4, &o5);
 }
+
+/* C34: ANY member DIE - attributes present or absent in any combination, any values (no WF_DIE): the offset
+   computation neither fails an internal assertion nor touches memory it should not; when the bit-field
+   description is incomplete (DW_AT_bit_offset without DW_AT_byte_size / DW_AT_bit_size) the offset is the byte
+   offset alone.  (The frame is not checked here: the call is direct, not through an enforced contract.)      */
+void h_any_die(void)
+{
+  __CPROVER_havoc_object(gh_has); __CPROVER_havoc_object(gh_val); __CPROVER_havoc_object(gh_form);
+  __CPROVER_havoc_object(gh_loc_is_constant); __CPROVER_havoc_object(gh_loc_expr_len);
+  __CPROVER_havoc_object(gh_loc_atom); __CPROVER_havoc_object(gh_loc_number);
+  gh_big_endian = nondet_int();
+  int in_die = nondet_int(); __CPROVER_assume(in_die == 0 || in_die == 1);
+  __CPROVER_assume(gh_loc_expr_len[in_die] >= 0 && gh_loc_expr_len[in_die] <= 2);
+  /* signed overflow of `offset *= 8` for byte offsets >= 2^60 is undefined behaviour but neither a crash nor an
+     abort nor a memory access: outside C34 (it belongs to C35, not applicable) */
+  __CPROVER_assume(GH_VAL(in_die, GA_data_member_location) < (1UL << 60) && gh_loc_number[in_die] < (1UL << 60));
+  int64_t in_offset = nondet_ulong(); uint64_t in_boff = nondet_ulong(); uint64_t before = in_boff;
+  int r = w_read_and_convert(in_die, nondet_int(), &in_boff);
+  __CPROVER_assert(r || in_boff == before, "an unusable bit-field description leaves the offset alone");
+  __CPROVER_assert(!r || GH_HAS(in_die, GA_bit_offset), "a bit offset is only reported when the DIE has DW_AT_bit_offset");
+  w_die_member_offset(in_die, &in_offset);
+  CANARY_h_any_die;
+}
